@@ -182,6 +182,11 @@ impl fmt::Debug for LtHash {
     }
 }
 
+// verification hook (guard: cfg(kani), set only by `cargo kani`): harnesses live in /verif
+#[cfg(kani)]
+#[path = "/verif/units/exec_state/kani/commitment_kani.rs"]
+mod verif_kani;
+
 #[cfg(test)]
 mod tests {
     use rand::prelude::*;
